@@ -19,7 +19,8 @@ def gen(rng):
     per_facet = rng.random() < 0.5
     cfg["per_facet"] = per_facet
     cfg["key_order"] = rng.sample(range(2 * dim), 2 * dim) if (per_facet and rng.random() < 0.6) else None
-    cfg["int_dim"] = (not per_facet) and rng.random() < 0.6
+    cfg["int_dim"] = rng.random() < 0.6           # a single component may be named by its integer index (global or per facet)
+    cfg["omit_full_dim"] = rng.random() < 0.5     # a selection of every component may be left out altogether (documented default)
     lo = rng.randrange(nout)
     neu_possible = True
     specs = []
@@ -90,11 +91,15 @@ def build_and_eval(cfg):
         fun = {n: (mkf(s) if s else None) for n, s in pairs}
         cond = {n: (("von neumann" if s["neu"] else "dirichlet") if s else None) for n, s in pairs}
         bdim = {n: jnp.s_[cfg["lo"]:cfg["hi"]] for n, s in pairs}
+        if cfg.get("int_dim") and cfg["hi"] - cfg["lo"] == 1:
+            bdim = {n: int(cfg["lo"]) for n, s in pairs}
     else:
         fun = mkf(specs[0]); cond = "von neumann" if specs[0]["neu"] else "dirichlet"; bdim = jnp.s_[cfg["lo"]:cfg["hi"]]
         if cfg.get("int_dim") and cfg["hi"] - cfg["lo"] == 1:
             bdim = int(cfg["lo"])          # a single component may be selected by its integer index (0 included)
     kw = dict(omega_boundary_fun=fun, omega_boundary_condition=cond, omega_boundary_dim=bdim)
+    if cfg.get("omit_full_dim") and cfg["lo"] == 0 and cfg["hi"] == len(cfg["upolys"]):
+        del kw["omega_boundary_dim"]
     # (rows, coords, facets)
     pts = cfg["points"]
     arr = jnp.array([[[pts[fa][r][c] for fa in range(len(pts))] for c in range(len(pts[0][0]))] for r in range(len(pts[0]))])
